@@ -333,3 +333,21 @@ Proof.
   - apply ok_reread_R. apply closed_inv. exact I.
   - pose proof (closed_inv caps st' q' 0 I) as X. clear - X. induction X; cbn [length]; congruence.
 Qed.
+
+(* whenever the reader model returns captions for the writer's document, they satisfy the re-read clause *)
+Theorem reread_conditional : forall caps o, caps_ok caps -> reread_obs caps = Some o -> ok_reread (map to_cue caps) o = 0.
+Proof.
+  intros caps o H. destruct (reread_stash caps H) as (stf & E & O & _). unfold reread_obs. rewrite E.
+  destruct (finish_read stf) as [pcs| |] eqn:F; try discriminate. intros X. inversion X; subst o.
+  change (map (fun c => (pc_start c, strip (cap_text c))) pcs) with (map obs pcs). rewrite (finish_obs stf pcs F). exact O.
+Qed.
+
+(* the only ways the reader model can refuse the writer's document are the two final checks of SCCReader.read *)
+Theorem reread_refusals : forall caps, caps_ok caps -> caps <> [] ->
+  (exists pcs, reread caps = RRRead (ROk pcs)) \/ (exists m, reread caps = RRRead (RLen m)) \/ reread caps = RRRead (RErr ETiming).
+Proof.
+  intros caps H Ne. destruct (reread_stash caps H) as (stf & E & _ & L). rewrite E. unfold finish_read.
+  destruct (length_check (map to_lcap (st_caps stf))) as [m|]; [right; left; exists m; reflexivity|].
+  destruct (existsb is_flash (st_caps stf)); [right; right; reflexivity|].
+  destruct (st_caps stf) as [|c t]; [destruct caps; [congruence|discriminate]|]. left. eexists. reflexivity.
+Qed.
